@@ -312,6 +312,12 @@ fn small_models(ctx: &Ctx) -> Vec<Case> {
     v.push(Case { kv: vec![(vec![], 0)], set: true, family: "special", index: 1 });
     v.push(Case { kv: vec![(vec![], 5)], set: false, family: "special", index: 2 });
     v.push(Case { kv: vec![(vec![0], 0)], set: true, family: "special", index: 3 });
+    // dense product sets: (many) more keys than bytes
+    for f in gen::pool(ctx.tier, ctx.seed, 1).iter().filter(|f| f.name == "dense-product") {
+        for i in 0..f.count {
+            v.push((f.make)(i));
+        }
+    }
     v
 }
 
@@ -417,7 +423,7 @@ pub fn run(ctx: &Ctx) -> i32 {
         ev,
         Spec {
             level: "exploration",
-            rule: "one evaluation = one file opened in one container and put through the query battery (len/is_empty, full stream, verify() = Ok for v3 / ChecksumMissing for v1-2, lookups of keys/prefixes/extensions and every single byte from the root, 4 random ranges, Subsequence and DFA searches) against the model the file encodes; files: ~8000 (thorough 40000) models x versions {1,2,3} x 2 output distributions and node-form policies produced by the harness' independent reference encoder (self-checked by the independent decoder; includes empty map, only-empty-key, files of 32..35 bytes, nodes with >32 transitions with and without index), cross-version union/intersection/difference together with the crate's own output, 40 committed golden files (v1/v2/v3 reference encodings and v3 crate output with sidecar content), corpora in all versions; containers rotate over Vec, &[u8], Cow::Borrowed/Owned, Box<[u8]>, Arc newtype, memory map, map_data, Map/Set wrappers; plus a header sweep: version field in {0,1,2,3,4,5,255,2^32,u64::MAX} x lengths 0..44 x 3 fillings with the required error class (Version{expected:3,got}, Format{size}); non-trivial = every evaluation; distinct = by construction / fingerprint",
+            rule: "one evaluation = one file opened in one container and put through the query battery (len/is_empty, full stream, verify() = Ok for v3 / ChecksumMissing for v1-2, lookups of keys/prefixes/extensions and every single byte from the root, 4 random ranges, Subsequence and DFA searches) against the model the file encodes; files: ~8000 (thorough 40000) models x versions {1,2,3} x 2 output distributions and node-form policies produced by the harness' independent reference encoder (self-checked by the independent decoder; includes empty map, only-empty-key, files of 32..35 bytes, nodes with >32 transitions with and without index, dense product sets with far more keys than bytes), cross-version union/intersection/difference together with the crate's own output, 40 committed golden files (v1/v2/v3 reference encodings and v3 crate output with sidecar content), corpora in all versions; containers rotate over Vec, &[u8], Cow::Borrowed/Owned, Box<[u8]>, Arc newtype, memory map, map_data, Map/Set wrappers; plus a header sweep: version field in {0,1,2,3,4,5,255,2^32,u64::MAX} x lengths 0..44 x 3 fillings with the required error class (Version{expected:3,got}, Format{size}); non-trivial = every evaluation; distinct = by construction / fingerprint",
             assumptions: vec!["inputs that are both of unsupported version and shorter than any well-formed file may report either Format or Version".into(), "reference encoder output is validated by the reference decoder before use; a disagreement aborts the run as a harness error".into()],
             floors: vec![
                 ("files:version-1", 1000),
